@@ -5,6 +5,27 @@ from symx import stubs
 from harness import unitkit
 
 
+class NpShim:
+    """stand-in for the name `np` in dip.nodes.node_base: np.array(x, dtype=<symx stub>) applies the stub element-wise
+    (numpy would keep the raw sentinel strings in an object array), everything else is numpy"""
+
+    def __init__(self):
+        import numpy
+        self._np = numpy
+
+    def __getattr__(self, n):
+        return getattr(self._np, n)
+
+    def array(self, obj, dtype=None, **kw):
+        if dtype in (stubs.Float, stubs.Int):
+            a = self._np.array(obj, dtype=object)
+            out = self._np.empty(a.shape, dtype=object)
+            for idx in self._np.ndindex(a.shape):
+                out[idx] = dtype(a[idx])
+            return out
+        return self._np.array(obj, dtype=dtype, **kw)
+
+
 def dip_stub_entries():
     from scinumtools.dip.nodes.node_float import FloatNode
     from scinumtools.dip.nodes.node_integer import IntegerNode
@@ -24,6 +45,7 @@ def dip_stub_entries():
         ('scinumtools.dip.nodes.node_base', 'float', stubs.Float),
         ('scinumtools.dip.nodes.node_base', 'int', stubs.Int),
         ('scinumtools.dip.nodes.node_base', 'bool', stubs.Bool),
+        ('scinumtools.dip.nodes.node_base', 'np', NpShim()),
         ('scinumtools.solver.atom', 'float', stubs.Float),
         ('scinumtools.dip.solvers.logical_solver', 'bool', stubs.Bool),
     ]
